@@ -17,6 +17,10 @@ import (
 	"testing"
 	"time"
 
+	"github.com/robinbraemer/event"
+
+	"go.minekube.com/gate/pkg/edition/java/config"
+	"go.minekube.com/gate/pkg/edition/java/proxy"
 	"go.minekube.com/gate/pkg/util/uuid"
 
 	"verif/harness/mcwire"
@@ -82,115 +86,126 @@ func TestTrace(t *testing.T) {
 		emitUUID(string(bs))
 	}
 
-	// (b) live offline-mode logins
-	var seen sync.Map // backend: user name -> uuid bytes
-	be, err := rig.NewBackend(func(bc *rig.BackendConn) {
-		if err := bc.ReadLogin(); err != nil {
-			return
-		}
-		if bc.HasUUID {
-			seen.Store(bc.Name, bc.UUID)
-		} else {
-			seen.Store(bc.Name, [16]byte{})
-		}
-		if err := bc.CompleteJoin(-1); err != nil {
-			return
-		}
-		bc.Pump()
-	})
-	if err != nil {
-		t.Fatal(err)
-	}
-	defer be.Close()
-	r, err := rig.New(rig.Options{Backends: map[string]*rig.Backend{"lobby": be}, Try: []string{"lobby"}})
-	if err != nil {
-		t.Fatal(err)
-	}
-	defer r.Close()
-
-	const workers = 6
-	buckets := make([][]nm, workers)
-	for _, n := range names {
-		h := fnv.New32a()
-		h.Write([]byte(strings.ToLower(toString(n.Cps))))
-		k := int(h.Sum32() % workers)
-		buckets[k] = append(buckets[k], n)
-	}
-	var mu sync.Mutex
-	var wg sync.WaitGroup
+	// (b) live logins that end up in offline mode: an offline-mode proxy, and an online-mode
+	// proxy whose pre-login handler forces offline mode (the user name rule and the vanilla
+	// UUID hold for both)
 	admitted, validRejected, backendSeen := 0, 0, 0
 	var samples []any
-	for wi := 0; wi < workers; wi++ {
-		wi := wi
-		wg.Add(1)
-		go func() {
-			defer wg.Done()
-			for i, n := range buckets[wi] {
-				name := toString(n.Cps)
-				proto := []int{rig.P1_20, rig.P1_20_3}[(i+wi)%2]
-				rec := tracefmt.Rec{"ev": "login", "cps": n.Cps, "admitted": false, "md5": tracefmt.Bytes(md5of(name)),
-					"uuid": []int{}, "backend": []int{}, "proto": proto}
-				c, err := r.NewClient(proto)
-				if err != nil {
-					t.Error(err)
+	for _, forced := range []bool{false, true} {
+		func() {
+			var seen sync.Map // backend: user name -> uuid bytes
+			be, err := rig.NewBackend(func(bc *rig.BackendConn) {
+				if err := bc.ReadLogin(); err != nil {
 					return
 				}
-				ls, err := func() (rig.LoginSuccess, error) {
-					if err := c.Handshake("localhost", 25565, 2); err != nil {
-						return rig.LoginSuccess{}, err
-					}
-					// the client claims an arbitrary id; offline mode must not trust it
-					var claim [16]byte
-					rng := rand.New(rand.NewSource(int64(i)*7919 + int64(wi)))
-					rng.Read(claim[:])
-					if err := c.WritePacket(rig.SBLoginStart, rig.LoginStartPayload(proto, name, claim)); err != nil {
-						return rig.LoginSuccess{}, err
-					}
-					return c.AwaitLoginSuccess()
-				}()
-				if err == nil && ls.Name == name {
-					rec["admitted"] = true
-					rec["uuid"] = tracefmt.Bytes(ls.UUID[:])
-					if proto >= rig.P1_20_2 {
-						_ = c.WritePacket(rig.SBLoginAck, nil)
-					}
-					// the proxy now logs into the backend: wait until the backend saw the login start
-					var bu any
-					ok := rig.WaitFor(5*time.Second, func() bool { bu, _ = seen.Load(name); return bu != nil })
-					if ok {
-						u := bu.([16]byte)
-						rec["backend"] = tracefmt.Bytes(u[:])
+				if bc.HasUUID {
+					seen.Store(bc.Name, bc.UUID)
+				} else {
+					seen.Store(bc.Name, [16]byte{})
+				}
+				if err := bc.CompleteJoin(-1); err != nil {
+					return
+				}
+				bc.Pump()
+			})
+			if err != nil {
+				t.Fatal(err)
+			}
+			defer be.Close()
+			mgr := event.New()
+			if forced {
+				event.Subscribe(mgr, 0, func(e *proxy.PreLoginEvent) { e.ForceOfflineMode() })
+			}
+			r, err := rig.New(rig.Options{Backends: map[string]*rig.Backend{"lobby": be}, Try: []string{"lobby"}, EventMgr: mgr,
+				Mutate: func(c *config.Config) { c.OnlineMode = forced }})
+			if err != nil {
+				t.Fatal(err)
+			}
+			defer r.Close()
+
+			const workers = 6
+			buckets := make([][]nm, workers)
+			for _, n := range names {
+				h := fnv.New32a()
+				h.Write([]byte(strings.ToLower(toString(n.Cps))))
+				k := int(h.Sum32() % workers)
+				buckets[k] = append(buckets[k], n)
+			}
+			var mu sync.Mutex
+			var wg sync.WaitGroup
+			for wi := 0; wi < workers; wi++ {
+				wi := wi
+				wg.Add(1)
+				go func() {
+					defer wg.Done()
+					for i, n := range buckets[wi] {
+						name := toString(n.Cps)
+						proto := []int{rig.P1_20, rig.P1_20_3}[(i+wi)%2]
+						rec := tracefmt.Rec{"ev": "login", "cps": n.Cps, "admitted": false, "md5": tracefmt.Bytes(md5of(name)),
+							"uuid": []int{}, "backend": []int{}, "proto": proto, "forced": forced}
+						c, err := r.NewClient(proto)
+						if err != nil {
+							t.Error(err)
+							return
+						}
+						ls, err := func() (rig.LoginSuccess, error) {
+							if err := c.Handshake("localhost", 25565, 2); err != nil {
+								return rig.LoginSuccess{}, err
+							}
+							// the client claims an arbitrary id; offline mode must not trust it
+							var claim [16]byte
+							rng := rand.New(rand.NewSource(int64(i)*7919 + int64(wi)))
+							rng.Read(claim[:])
+							if err := c.WritePacket(rig.SBLoginStart, rig.LoginStartPayload(proto, name, claim)); err != nil {
+								return rig.LoginSuccess{}, err
+							}
+							return c.AwaitLoginSuccess()
+						}()
+						if err == nil && ls.Name == name {
+							rec["admitted"] = true
+							rec["uuid"] = tracefmt.Bytes(ls.UUID[:])
+							if proto >= rig.P1_20_2 {
+								_ = c.WritePacket(rig.SBLoginAck, nil)
+							}
+							// the proxy now logs into the backend: wait until the backend saw the login start
+							var bu any
+							ok := rig.WaitFor(5*time.Second, func() bool { bu, _ = seen.Load(name); return bu != nil })
+							if ok {
+								u := bu.([16]byte)
+								rec["backend"] = tracefmt.Bytes(u[:])
+								mu.Lock()
+								backendSeen++
+								mu.Unlock()
+							}
+						}
+						c.Close()
+						if rec["admitted"] == true {
+							// let the proxy notice the disconnect before a case-variant of this name logs in
+							rig.WaitFor(3*time.Second, func() bool { return r.P.PlayerByName(name) == nil })
+							seen.Delete(name)
+						}
 						mu.Lock()
-						backendSeen++
+						tw.Emit(rec)
+						if rec["admitted"] == true {
+							admitted++
+							if len(samples) < 2 {
+								samples = append(samples, rec)
+							}
+						} else if len(samples) < 4 && len(n.Cps) > 1 {
+							samples = append(samples, rec)
+						}
 						mu.Unlock()
 					}
-				}
-				c.Close()
-				if rec["admitted"] == true {
-					// let the proxy notice the disconnect before a case-variant of this name logs in
-					rig.WaitFor(3*time.Second, func() bool { return r.P.PlayerByName(name) == nil })
-					seen.Delete(name)
-				}
-				mu.Lock()
-				tw.Emit(rec)
-				if rec["admitted"] == true {
-					admitted++
-					if len(samples) < 2 {
-						samples = append(samples, rec)
-					}
-				} else if len(samples) < 4 && len(n.Cps) > 1 {
-					samples = append(samples, rec)
-				}
-				mu.Unlock()
+				}()
 			}
+			wg.Wait()
 		}()
 	}
-	wg.Wait()
 	_ = validRejected
 	if err := tw.Close(); err != nil {
 		t.Fatal(err)
 	}
-	tracefmt.WriteJSON("stats.json", map[string]any{"uuid_calls": nuuid, "logins": len(names), "admitted": admitted,
+	tracefmt.WriteJSON("stats.json", map[string]any{"uuid_calls": nuuid, "logins": 2 * len(names), "admitted": admitted,
 		"backend_seen": backendSeen, "samples": samples})
 }
 
